@@ -1,9 +1,19 @@
 //! C14 — A sips: target is never sent in clear; target and transport selection are sound
 //!
-//! Seven sub-checks share one scenario executor and one oracle walk:
+//! Eight sub-checks share one scenario executor and one oracle walk:
 //!
 //! * `config` — the finite configuration space, enumerated exhaustively (one request per configuration,
 //!   target URI built through the `SipUri` builder API);
+//! * `bound-addr` — what the configured datagram transports report as `bound()`: besides the concrete
+//!   addresses of `config` (10.0.0.1, fd00::1) the IPv4 wildcard 0.0.0.0 and loopback 127.0.0.1, the IPv6
+//!   wildcard `[::]` (a dual-stack socket on many hosts), loopback `[::1]` and an IPv4-mapped address
+//!   `[::ffff:10.0.0.1]`; enumerated over every non-empty datagram subset x bind variant per family (thorough:
+//!   per transport) x factories {absent, connects, refuses}^2 x registration order x pre-existing connection
+//!   x sip/sips x destination family. The reference takes "address family" as the family of the socket
+//!   address (`SocketAddr::is_ipv6` of the generated bound address): `[::]` and `[::ffff:a.b.c.d]` are IPv6
+//!   addresses and never carry a request to an IPv4 destination, 0.0.0.0 never one to an IPv6 destination -
+//!   such a request falls through to connection reuse / factories / failure like with no datagram transport
+//!   of the destination's family. `sequence` draws the bind variants per transport too;
 //! * `uri-text` — the target URI is TEXT that goes through one of ezk's URI readers before it becomes the
 //!   request target (`SipUri::from_str`, `Endpoint::parse_uri`, the request line / the Contact header
 //!   (name-addr and bare addr-spec form) of a received message); enumerated: scheme spelling (lower, UPPER,
@@ -109,6 +119,39 @@ const DGRAMS: [(&str, bool, &str); 4] = [
     ("DTLS", true, "10.0.0.1:5060"),
     ("DTLS", true, "[fd00::1]:5060"),
 ];
+/// what a configured datagram transport reports as `bound()`, per family (index = "bind variant"; 0 = the address
+/// in DGRAMS). Every variant keeps the family of its slot: the IPv6 wildcard `[::]` (a dual-stack socket on
+/// many platforms), the IPv6 loopback and an IPv4-mapped IPv6 address are IPv6 addresses, the IPv4 wildcard
+/// and loopback IPv4 ones - the statement's "address family" is the family of the socket address.
+const BIND_V4: [&str; 3] = ["10.0.0.1:5060", "0.0.0.0:5060", "127.0.0.1:5060"];
+const BIND_V6: [&str; 4] = ["[fd00::1]:5060", "[::]:5060", "[::1]:5060", "[::ffff:10.0.0.1]:5060"];
+
+/// is DGRAMS[i] an IPv6 slot
+fn dgram_v6(i: usize) -> bool {
+    i & 1 == 1
+}
+
+fn bind_variants(i: usize) -> usize {
+    if dgram_v6(i) { BIND_V6.len() } else { BIND_V4.len() }
+}
+
+/// the address DGRAMS[i] is bound to under the scenario's bind variants
+fn dgram_bound(i: usize, binds: &[u8; 4]) -> SocketAddr {
+    let v = (binds[i] as usize).min(bind_variants(i) - 1);
+    if dgram_v6(i) { BIND_V6[v] } else { BIND_V4[v] }.parse().unwrap()
+}
+
+/// keep a case canonical: no variant for a transport that is not configured, selectors within the table
+fn canonical_binds(dgrams: u8, binds: [u8; 4]) -> [u8; 4] {
+    let mut b = [0u8; 4];
+    for i in 0..4 {
+        if dgrams & (1 << i) != 0 {
+            b[i] = binds[i].min(bind_variants(i) as u8 - 1);
+        }
+    }
+    b
+}
+
 /// transports that are NOT part of the endpoint, only reachable through a pinned target info
 /// (name, secure, bound); EXT_RELIABLE[i]: the transport reports `reliable() == true` (what a connection reports)
 const EXT: [(&str, bool, &str); 4] = [
@@ -440,6 +483,8 @@ pub enum Follow {
 #[derive(Clone, Debug)]
 struct Scenario {
     dgrams: u8,
+    /// bind variant of DGRAMS[i] (index into BIND_V4 / BIND_V6)
+    binds: [u8; 4],
     /// register the datagram transports in reverse order
     dgrams_rev: bool,
     /// registered factories in registration order (value = secure)
@@ -687,12 +732,12 @@ fn cid_of_wire(ids: &Ids, tp: u32, conns: &[ConnRec], wrote: &[u32]) -> CId {
     }
 }
 
-fn cid_of_handle(tp: &TpHandle, conns: &[ConnRec]) -> CId {
+fn cid_of_handle(tp: &TpHandle, conns: &[ConnRec], binds: &[u8; 4]) -> CId {
     let key = tp.key();
     match key.direction {
         Direction::None => {
-            for (i, (name, _, bound)) in DGRAMS.iter().enumerate() {
-                if *name == key.name && bound.parse::<SocketAddr>().unwrap() == key.bound {
+            for (i, (name, _, _)) in DGRAMS.iter().enumerate() {
+                if *name == key.name && dgram_bound(i, binds) == key.bound {
                     return CId::Dgram(i);
                 }
             }
@@ -746,8 +791,9 @@ fn execute(sc: &Scenario, rng: u64) -> Result<Vec<StepObs>, String> {
             order.reverse();
         }
         for i in order {
-            let (name, secure, bound) = DGRAMS[i];
-            let (tp, id) = mock_datagram(&log, name, secure, false, bound);
+            let (name, secure, _) = DGRAMS[i];
+            let bound = dgram_bound(i, &sc.binds).to_string();
+            let (tp, id) = mock_datagram(&log, name, secure, false, &bound);
             dgram_tp.push((i, tp.clone()));
             b.add_unmanaged_transport(tp);
             ids.dgram.push((i, id));
@@ -1036,7 +1082,7 @@ fn execute(sc: &Scenario, rng: u64) -> Result<Vec<StepObs>, String> {
             obs.target_after = target
                 .transport
                 .as_ref()
-                .map(|(tp, d)| (cid_of_handle(tp, &conns), *d));
+                .map(|(tp, d)| (cid_of_handle(tp, &conns, &sc.binds), *d));
             match result {
                 Ok(tsx) => {
                     obs.ok = true;
@@ -1197,9 +1243,24 @@ fn evaluate(sc: &Scenario, obs: &[StepObs], out: &mut CaseOut) -> Summary {
         .map(|i| rs::Dgram {
             key: i,
             secure: DGRAMS[i].1,
-            bound_v6: DGRAMS[i].2.starts_with('['),
+            // the family of the socket address the transport reports as bound()
+            bound_v6: dgram_bound(i, &sc.binds).is_ipv6(),
         })
         .collect();
+    // ---- what the configured datagram transports are bound to (once per case) ----
+    for d in &dgrams {
+        let a = dgram_bound(d.key, &sc.binds);
+        out.class(match a.ip() {
+            IpAddr::V4(x) if x.is_unspecified() => "bound:ipv4-wildcard-datagram (0.0.0.0)",
+            IpAddr::V4(x) if x.is_loopback() => "bound:ipv4-loopback-datagram",
+            IpAddr::V4(_) => "bound:ipv4-concrete-datagram",
+            IpAddr::V6(x) if x.is_unspecified() => "bound:ipv6-wildcard-datagram ([::], dual-stack on many hosts)",
+            IpAddr::V6(x) if x.is_loopback() => "bound:ipv6-loopback-datagram",
+            IpAddr::V6(x) if x.to_ipv4_mapped().is_some() => "bound:ipv4-mapped-ipv6-datagram",
+            IpAddr::V6(_) => "bound:ipv6-concrete-datagram",
+        });
+    }
+    let special_bound = |key: usize| sc.binds[key] != 0;
     let mut notes = vec![];
     // per request: what the caller pinned (for the verdict on later transmissions)
     let mut pins: Vec<Option<rs::Pin>> = vec![];
@@ -1503,6 +1564,30 @@ fn evaluate(sc: &Scenario, obs: &[StepObs], out: &mut CaseOut) -> Summary {
                 out.class("nontrivial:eligible-candidates-on->=2-paths");
                 nt = true;
             }
+            // a datagram transport of the OTHER family whose bound address is a wildcard / loopback / IPv4-mapped
+            // one fits name and security, and none of the destination's family is eligible: only the family rule
+            // keeps the request off it
+            if let Some(dest) = e.dest {
+                let other_special_fits = cfg.dgrams.iter().any(|d| {
+                    d.bound_v6 != dest.is_ipv6() && special_bound(d.key) && (!readings[0].sips || d.secure)
+                });
+                if other_special_fits && e.dgrams.is_empty() {
+                    out.class("nontrivial:only-the-family-rule-excludes-a-wildcard/loopback/mapped-bound-datagram-of-the-other-family");
+                    nt = true;
+                    let wild = cfg.dgrams.iter().any(|d| {
+                        d.bound_v6
+                            && !dest.is_ipv6()
+                            && dgram_bound(d.key, &sc.binds).ip().is_unspecified()
+                            && (!readings[0].sips || d.secure)
+                    });
+                    if wild {
+                        out.class("bound:ipv4-destination, [::]-bound-datagram-fits-security, no-ipv4-datagram-eligible");
+                    }
+                }
+                if e.dgrams.iter().any(|k| special_bound(*k)) {
+                    out.class("bound:eligible-datagram-on-a-wildcard/loopback/mapped-address");
+                }
+            }
             if !e.may_succeed() {
                 out.class("reference:no-eligible-candidate");
             }
@@ -1649,7 +1734,7 @@ fn evaluate(sc: &Scenario, obs: &[StepObs], out: &mut CaseOut) -> Summary {
                     rs::LaterKind::OtherRequest
                 };
                 let (carrier, secure, bound_v6) = match cid {
-                    CId::Dgram(i) => (Carrier::Dgram(*i), DGRAMS[*i].1, Some(DGRAMS[*i].2.starts_with('['))),
+                    CId::Dgram(i) => (Carrier::Dgram(*i), DGRAMS[*i].1, Some(dgram_bound(*i, &sc.binds).is_ipv6())),
                     CId::Ext(i) => (Carrier::External(*i), EXT[*i].1, Some(EXT[*i].2.starts_with('['))),
                     CId::Conn(id) => match conns.iter().position(|c| c.rec.id == *id) {
                         Some(k) => (Carrier::Conn(k), conns[k].rec.secure, None),
@@ -1777,6 +1862,10 @@ pub struct Case {
     pub port: bool,
     pub pin: PinSel,
     pub rng: u8,
+    /// bind variant of each datagram transport (index into BIND_V4 / BIND_V6; 0 = the concrete address):
+    /// what the transport reports as `bound()`
+    #[serde(default)]
+    pub binds: [u8; 4],
 }
 
 const FACS: [Fac; 3] = [Fac::Absent, Fac::Connects, Fac::Refuses];
@@ -1818,6 +1907,89 @@ pub fn config_cases(_tier: Tier) -> Vec<Case> {
                                             port,
                                             pin,
                                             rng,
+                                            binds: [0; 4],
+                                        });
+                                    }
+                                }
+                            }
+                        }
+                    }
+                }
+            }
+        }
+    }
+    v
+}
+
+/// the bind variants enumerated for a datagram subset, the all-default one (covered by `config`) left out.
+/// Quick: one variant per family (shared by the insecure and the secure transport of that family);
+/// thorough: one per transport.
+fn bind_sets(tier: Tier, dgrams: u8) -> Vec<[u8; 4]> {
+    let has = |i: usize| dgrams & (1 << i) != 0;
+    let mut v = vec![];
+    match tier {
+        Tier::Quick => {
+            let n4 = if has(0) || has(2) { BIND_V4.len() as u8 } else { 1 };
+            let n6 = if has(1) || has(3) { BIND_V6.len() as u8 } else { 1 };
+            for b4 in 0..n4 {
+                for b6 in 0..n6 {
+                    v.push(canonical_binds(dgrams, [b4, b6, b4, b6]));
+                }
+            }
+        }
+        Tier::Thorough => {
+            let n = |i: usize| if has(i) { bind_variants(i) as u8 } else { 1 };
+            for a in 0..n(0) {
+                for b in 0..n(1) {
+                    for c in 0..n(2) {
+                        for d in 0..n(3) {
+                            v.push([a, b, c, d]);
+                        }
+                    }
+                }
+            }
+        }
+    }
+    v.retain(|b| *b != [0; 4]);
+    v
+}
+
+/// sub-check `bound-addr`: the configuration space of `config` again, with the datagram transports bound to
+/// wildcard / loopback / IPv4-mapped addresses
+pub fn bound_cases(tier: Tier) -> Vec<Case> {
+    let pres: &[Pre] = &[Pre::None, Pre::OutInsecure, Pre::OutSecure];
+    let ports: &[bool] = match tier {
+        Tier::Quick => &[false],
+        Tier::Thorough => &[false, true],
+    };
+    let mut v = vec![];
+    for dgrams in 1u8..16 {
+        for binds in bind_sets(tier, dgrams) {
+            for tcp in FACS {
+                for tls in FACS {
+                    let orders: &[bool] = if tcp != Fac::Absent && tls != Fac::Absent {
+                        &[false, true]
+                    } else {
+                        &[false]
+                    };
+                    for &tls_first in orders {
+                        for &pre in pres {
+                            for sips in [false, true] {
+                                for v6 in [false, true] {
+                                    for &port in ports {
+                                        let rng = (v.len() % 5) as u8;
+                                        v.push(Case {
+                                            dgrams,
+                                            tcp,
+                                            tls,
+                                            tls_first,
+                                            pre,
+                                            sips,
+                                            v6,
+                                            port,
+                                            pin: PinSel::Empty,
+                                            rng,
+                                            binds,
                                         });
                                     }
                                 }
@@ -1861,6 +2033,7 @@ fn lower_config(c: &Case) -> Scenario {
     }
     Scenario {
         dgrams: c.dgrams & 0xf,
+        binds: canonical_binds(c.dgrams & 0xf, c.binds),
         dgrams_rev: false,
         facs,
         steps: vec![Step {
@@ -1965,6 +2138,9 @@ pub struct SeqCase {
     pub facs: FacOrder,
     pub steps: Vec<SeqStep>,
     pub rng: u8,
+    /// bind variant of each configured datagram transport (0 = the concrete address)
+    #[serde(default)]
+    pub binds: [u8; 4],
 }
 
 /// `;transport=` selector (index into TPARAMS): 12 in 17 none, else tcp / udp / tls / a transport nobody
@@ -2158,13 +2334,21 @@ pub fn seq_strategy() -> BoxedStrategy<SeqCase> {
         ],
         prop::collection::vec(seq_step(), 2..=6),
         any::<u8>(),
+        // what the datagram transports are bound to: half of the endpoints use the concrete addresses only, the
+        // others draw per transport IPv4 {concrete, wildcard, loopback : 1 each}, IPv6 {concrete 2, wildcard 2,
+        // loopback 1, IPv4-mapped 1} (selector 3 is clamped to the last IPv4 variant)
+        prop_oneof![
+            1 => Just([0u8; 4]),
+            1 => prop::array::uniform4(prop_oneof![2 => Just(0u8), 2 => Just(1u8), 1 => Just(2u8), 1 => Just(3u8)]),
+        ],
     )
-        .prop_map(|(dgrams, dgrams_rev, facs, steps, rng)| SeqCase {
+        .prop_map(|(dgrams, dgrams_rev, facs, steps, rng, binds)| SeqCase {
             dgrams,
             dgrams_rev,
             facs,
             steps,
             rng,
+            binds: canonical_binds(dgrams & 0xf, binds),
         })
         .boxed()
 }
@@ -2227,6 +2411,7 @@ fn lower_seq(c: &SeqCase) -> Scenario {
         .collect();
     Scenario {
         dgrams: c.dgrams & 0xf,
+        binds: canonical_binds(c.dgrams & 0xf, c.binds),
         dgrams_rev: c.dgrams_rev,
         facs,
         steps,
@@ -2328,6 +2513,7 @@ fn fac_list(f: FacOrder) -> Vec<bool> {
 pub fn check_text(case: &TextCase, out: &mut CaseOut) {
     let sc = Scenario {
         dgrams: case.dgrams & 0xf,
+        binds: [0; 4],
         dgrams_rev: false,
         facs: fac_list(case.facs),
         steps: vec![Step {
@@ -2460,6 +2646,7 @@ pub fn check_param(case: &ParamCase, out: &mut CaseOut) {
         port: case.port,
         pin: PinSel::Empty,
         rng: case.rng,
+        binds: [0; 4],
     };
     // same lowering as `config` (the pre-existing connection points at the URI's host and port); only the URI differs
     let mut sc = lower_config(&config);
@@ -2606,6 +2793,7 @@ pub fn check_follow(case: &FollowCase, out: &mut CaseOut) {
     };
     let sc = Scenario {
         dgrams: case.dgrams & 0xf,
+        binds: [0; 4],
         dgrams_rev: false,
         facs: fac_list(case.facs),
         steps: vec![Step {
@@ -2769,6 +2957,7 @@ pub fn hdr_cases(tier: Tier) -> Vec<HdrCase> {
 pub fn check_hdr(case: &HdrCase, out: &mut CaseOut) {
     let sc = Scenario {
         dgrams: case.dgrams & 0xf,
+        binds: [0; 4],
         dgrams_rev: false,
         facs: fac_list(case.facs),
         steps: vec![Step {
@@ -2910,6 +3099,7 @@ pub fn check_hist(case: &HistCase, out: &mut CaseOut) {
         .collect();
     let sc = Scenario {
         dgrams: case.dgrams & 0xf,
+        binds: [0; 4],
         dgrams_rev: false,
         facs: fac_list(case.facs),
         steps,
@@ -2932,8 +3122,9 @@ pub fn property() -> Property {
     Property {
         fuzz: vec![],
         id: "C14",
-        rule: "config: every combination of {UDP/v4, UDP/v6, secure datagram/v4, secure datagram/v6} subsets x insecure factory {absent, connects, refuses} x secure factory {absent, connects, refuses} (both registration orders when both are present) x pre-existing connection {none, insecure outbound to the destination, secure outbound to the destination, secure outbound to the same host other port, secure outbound to another host, secure inbound from the destination} (all held by a TpHandle) x {sip, sips} x {IPv4, IPv6 literal} x {no port, :5099} x target info {empty, pinned to a secure / an insecure transport outside the configuration with a foreign destination}; one OPTIONS request per configuration, each in its own paused-clock world. uri-text: the target URI is text read by ezk before it becomes the request target - reader {SipUri::from_str, Endpoint::parse_uri, request line / Contact name-addr / Contact addr-spec of a received request} x scheme spelling {lower, UPPER, Capitalised, mIxed} x {sip, sips} x user part {none, user, user:password} x host {IPv4, IPv6 lower case hex, IPv6 upper case hex (thorough: + IPv4-mapped)} x {no port, :5099} x parameters {none, ;lr, ;user=phone;ttl=5, ;method=OPTIONS, ?subject=hi as far as the reader's grammar allows them} x 8 endpoint configurations (datagram sets {UDP both families, all four, none, secure both families} x factories {both, none}; thorough 30); the reference sees only the generated (sips, ip, port) triple the text was rendered from. uri-param: the target URI carries ;transport= and / or ;maddr= - datagram sets {none, UDP/v4, UDP both, secure/v4, secure both, all four (thorough: + 4 mixed)} x insecure factory {absent, connects, refuses} x secure factory {absent, connects, refuses} (both registration orders) x pre-existing connection {none, insecure outbound to the destination, secure outbound to the destination (thorough: + secure outbound to the other port, secure inbound from the destination)} x {sip, sips} x {IPv4, IPv6} x {no port, :5099} x parameter shape {transport=tcp, udp, tls, TCP, sctp; maddr=host of the same family, of the other family; transport=tcp + maddr same family; transport=udp + maddr other family (thorough: all 8 transport values; maddr x {none, tcp, udp, tls})}; the reader {builder API, SipUri::from_str, Endpoint::parse_uri, received request line, received Contact name-addr}, scheme spelling, user part, other uri-parameters and the position of the routing parameters among them rotate with a multiplicative hash of the case number. Non-trivial additionally: honouring the transport= value would change the set of eligible candidates; a sips URI whose transport= value names an insecure candidate that is configured and would connect / is bound to the right family; a sips URI with maddr= and an insecure candidate present. followup: one driven request per case - datagram subsets x factories {none, both} x pre-existing connection {none, insecure outbound to the destination, secure outbound to the destination, insecure inbound from the destination} x {sip, sips} x {IPv4, IPv6} x target info {empty, secure pin, insecure pin} x script {OPTIONS polled 1.6 s, INVITE polled 1.6 s, INVITE answered 486 over V, INVITE answered 486 on the carrying transport and again over V 700 ms later from the peer's port + 1 (thorough: + 180, then 404 over V from port + 1)} with V over {the carrying transport, each configured datagram transport, the two transports outside the configuration, the pre-existing connection}; observed: every later request with the transaction's Call-ID (retransmissions, ACK, repeated ACK), its carrier and destination. sequence: 2..6 requests with varying URIs (2 hosts per family, ports default/5060/5061/5099) against one endpoint; transaction + target info of each request held or dropped at random, held ones released later, 40 s pauses expire unreferenced connections, kept target infos are re-used as pins, factories refuse per step, inbound connections from the destination appear. Observed: which mock's send() carried the request to which destination, which factory was asked to connect. Non-trivial = (sips target and at least one insecure candidate configured) or eligible candidates on at least two of the paths datagram / existing connection / factory; each step also draws the URI form (40 % built, 60 % one of the five text readers with random spelling; 5 in 17 with ;transport= {tcp/TCP 2, udp/UDP 1, tls/Tls 1, sctp/ws 1}, 1 in 8 with ;maddr= of the same / the other family, in front of or behind the other uri-parameters; never on a bare addr-spec Contact), the method (40 % INVITE) and, for 25 % of the steps, a follow-up script of 1..3 events (wait 300/600/1100/2100 ms; 180 / 200 / 302 / 404 / 486 / 603 delivered over the carrying transport, a configured or foreign datagram transport or any open connection, datagram responses from the destination's port or port + 1). Non-trivial additionally: a request with later transmissions whose target is sips, whose transport was pinned, or whose non-2xx final arrived over another transport than the request left on. route: one request per case - datagram sets {none, UDP both families, secure both families, all four} x factories {none, both, insecure only, secure only} (thorough: 8 x 5) x Request-URI {sip, sips} x {IPv4, IPv6} x header shape {decoy Contact / To only (3); one Route entry: {sip, sips} x {;lr, strict} x host {IPv4 proxy, IPv6 proxy, Request-URI host} x {no port, :5077}, with and without decoys (48); two entries, second {sip, sips};lr, as two headers / one comma list (96); one entry with ;transport={tcp, udp}: {sip, sips} x {;lr, strict} x host {IPv4 proxy, Request-URI host} (16)} x target info {empty, secure pin (thorough: + insecure pin)}; every third case an INVITE. pin-history: datagram sets {none, UDP+secure datagram IPv4, all four} x factories {none, both} (thorough 6 x 5) x target info {caller pins one of four transports outside the configuration (two of them report reliable()), caller pins an insecure / secure connection it opened to the destination, empty and filled in by a first successful request} x history of requests sent with the same target info object before the last one {none; OPTIONS whose send fails; INVITE whose send fails; OPTIONS ok, OPTIONS fails; OPTIONS fails, INVITE fails; INVITE ok; OPTIONS fails, OPTIONS ok} x last request {OPTIONS, INVITE} x {sip, sips} x {IPv4, IPv6}. sequence steps additionally draw: header shape (62 % no extra header, 25 % a route set of 1..2 random entries (1 in 3 with ;transport= tcp / udp / tls) + random decoys, 13 % decoys only), send fault for the first transmission (1 in 6), target info {empty; 1 in 5 the object kept from an earlier held request, used in place; 1 in 11 of the rest an own pin: external transport 0..3 or the connection the caller opened}, 1 in 13 an outbound connection the caller opens to the destination first. Non-trivial additionally: a route set + a sips URI (Request-URI or topmost entry) with an insecure candidate configured; a pinned request sent with a target info that has seen a failed send. Distinct by hash of the case.",
+        rule: "config: every combination of {UDP/v4, UDP/v6, secure datagram/v4, secure datagram/v6} subsets x insecure factory {absent, connects, refuses} x secure factory {absent, connects, refuses} (both registration orders when both are present) x pre-existing connection {none, insecure outbound to the destination, secure outbound to the destination, secure outbound to the same host other port, secure outbound to another host, secure inbound from the destination} (all held by a TpHandle) x {sip, sips} x {IPv4, IPv6 literal} x {no port, :5099} x target info {empty, pinned to a secure / an insecure transport outside the configuration with a foreign destination}; one OPTIONS request per configuration, each in its own paused-clock world. bound-addr: the same space with other bound() addresses of the datagram transports - every non-empty datagram subset x bind variant {IPv4: 10.0.0.1, 0.0.0.0, 127.0.0.1; IPv6: fd00::1, [::], [::1], [::ffff:10.0.0.1]} per family, shared by the insecure and the secure transport of the family (thorough: per transport), the all-concrete combination left to config x insecure factory {absent, connects, refuses} x secure factory {absent, connects, refuses} (both registration orders) x pre-existing connection {none, insecure outbound to the destination, secure outbound to the destination} x {sip, sips} x {IPv4, IPv6 literal} (thorough: x {no port, :5099}), empty target info; non-trivial additionally: no datagram transport of the destination's family is eligible while one of the other family bound to a wildcard / loopback / IPv4-mapped address fits the security requirement (only the family rule keeps the request off it). uri-text: the target URI is text read by ezk before it becomes the request target - reader {SipUri::from_str, Endpoint::parse_uri, request line / Contact name-addr / Contact addr-spec of a received request} x scheme spelling {lower, UPPER, Capitalised, mIxed} x {sip, sips} x user part {none, user, user:password} x host {IPv4, IPv6 lower case hex, IPv6 upper case hex (thorough: + IPv4-mapped)} x {no port, :5099} x parameters {none, ;lr, ;user=phone;ttl=5, ;method=OPTIONS, ?subject=hi as far as the reader's grammar allows them} x 8 endpoint configurations (datagram sets {UDP both families, all four, none, secure both families} x factories {both, none}; thorough 30); the reference sees only the generated (sips, ip, port) triple the text was rendered from. uri-param: the target URI carries ;transport= and / or ;maddr= - datagram sets {none, UDP/v4, UDP both, secure/v4, secure both, all four (thorough: + 4 mixed)} x insecure factory {absent, connects, refuses} x secure factory {absent, connects, refuses} (both registration orders) x pre-existing connection {none, insecure outbound to the destination, secure outbound to the destination (thorough: + secure outbound to the other port, secure inbound from the destination)} x {sip, sips} x {IPv4, IPv6} x {no port, :5099} x parameter shape {transport=tcp, udp, tls, TCP, sctp; maddr=host of the same family, of the other family; transport=tcp + maddr same family; transport=udp + maddr other family (thorough: all 8 transport values; maddr x {none, tcp, udp, tls})}; the reader {builder API, SipUri::from_str, Endpoint::parse_uri, received request line, received Contact name-addr}, scheme spelling, user part, other uri-parameters and the position of the routing parameters among them rotate with a multiplicative hash of the case number. Non-trivial additionally: honouring the transport= value would change the set of eligible candidates; a sips URI whose transport= value names an insecure candidate that is configured and would connect / is bound to the right family; a sips URI with maddr= and an insecure candidate present. followup: one driven request per case - datagram subsets x factories {none, both} x pre-existing connection {none, insecure outbound to the destination, secure outbound to the destination, insecure inbound from the destination} x {sip, sips} x {IPv4, IPv6} x target info {empty, secure pin, insecure pin} x script {OPTIONS polled 1.6 s, INVITE polled 1.6 s, INVITE answered 486 over V, INVITE answered 486 on the carrying transport and again over V 700 ms later from the peer's port + 1 (thorough: + 180, then 404 over V from port + 1)} with V over {the carrying transport, each configured datagram transport, the two transports outside the configuration, the pre-existing connection}; observed: every later request with the transaction's Call-ID (retransmissions, ACK, repeated ACK), its carrier and destination. sequence: 2..6 requests with varying URIs (2 hosts per family, ports default/5060/5061/5099) against one endpoint; transaction + target info of each request held or dropped at random, held ones released later, 40 s pauses expire unreferenced connections, kept target infos are re-used as pins, factories refuse per step, inbound connections from the destination appear. Observed: which mock's send() carried the request to which destination, which factory was asked to connect. Non-trivial = (sips target and at least one insecure candidate configured) or eligible candidates on at least two of the paths datagram / existing connection / factory; each step also draws the URI form (40 % built, 60 % one of the five text readers with random spelling; 5 in 17 with ;transport= {tcp/TCP 2, udp/UDP 1, tls/Tls 1, sctp/ws 1}, 1 in 8 with ;maddr= of the same / the other family, in front of or behind the other uri-parameters; never on a bare addr-spec Contact), the method (40 % INVITE) and, for 25 % of the steps, a follow-up script of 1..3 events (wait 300/600/1100/2100 ms; 180 / 200 / 302 / 404 / 486 / 603 delivered over the carrying transport, a configured or foreign datagram transport or any open connection, datagram responses from the destination's port or port + 1). Non-trivial additionally: a request with later transmissions whose target is sips, whose transport was pinned, or whose non-2xx final arrived over another transport than the request left on. route: one request per case - datagram sets {none, UDP both families, secure both families, all four} x factories {none, both, insecure only, secure only} (thorough: 8 x 5) x Request-URI {sip, sips} x {IPv4, IPv6} x header shape {decoy Contact / To only (3); one Route entry: {sip, sips} x {;lr, strict} x host {IPv4 proxy, IPv6 proxy, Request-URI host} x {no port, :5077}, with and without decoys (48); two entries, second {sip, sips};lr, as two headers / one comma list (96); one entry with ;transport={tcp, udp}: {sip, sips} x {;lr, strict} x host {IPv4 proxy, Request-URI host} (16)} x target info {empty, secure pin (thorough: + insecure pin)}; every third case an INVITE. pin-history: datagram sets {none, UDP+secure datagram IPv4, all four} x factories {none, both} (thorough 6 x 5) x target info {caller pins one of four transports outside the configuration (two of them report reliable()), caller pins an insecure / secure connection it opened to the destination, empty and filled in by a first successful request} x history of requests sent with the same target info object before the last one {none; OPTIONS whose send fails; INVITE whose send fails; OPTIONS ok, OPTIONS fails; OPTIONS fails, INVITE fails; INVITE ok; OPTIONS fails, OPTIONS ok} x last request {OPTIONS, INVITE} x {sip, sips} x {IPv4, IPv6}. sequence steps additionally draw: header shape (62 % no extra header, 25 % a route set of 1..2 random entries (1 in 3 with ;transport= tcp / udp / tls) + random decoys, 13 % decoys only), send fault for the first transmission (1 in 6), target info {empty; 1 in 5 the object kept from an earlier held request, used in place; 1 in 11 of the rest an own pin: external transport 0..3 or the connection the caller opened}, 1 in 13 an outbound connection the caller opens to the destination first. Non-trivial additionally: a route set + a sips URI (Request-URI or topmost entry) with an insecure candidate configured; a pinned request sent with a target info that has seen a failed send. sequence endpoints additionally draw the bound() address per configured datagram transport (half of the endpoints all concrete; else IPv4 {10.0.0.1, 0.0.0.0, 127.0.0.1} 1:1:1, IPv6 {fd00::1, [::], [::1], [::ffff:10.0.0.1]} 2:2:1:1). Distinct by hash of the case.",
         assumptions: vec![
+            "the address family of a datagram transport is the family of the socket address it reports as bound(): 0.0.0.0 / 127.0.0.1 are IPv4, [::] / [::1] / [::ffff:10.0.0.1] are IPv6 (that a [::] socket may be dual-stack in the kernel is not part of the statement: the destination is handed to the transport unmapped); a wildcard / loopback bound address does not make a transport of the destination's family ineligible (liveness is asserted with it like with a concrete one); the bound port plays no role",
             "IP-literal targets only (no DNS: the resolver has no name servers); mock streams stand in for TCP/TLS (no handshake); maddr= values are IP literals",
             "a ;transport= / ;maddr= uri-parameter on the target URI (or ;transport= on the topmost Route entry): the statement mentions neither, so ignoring it (the pinned tree) and honouring it (RFC 3261 19.1.1, RFC 3263 4.1: transport= narrows the candidates to the named transport, maddr= replaces the host as the address to contact) are both accepted, per parameter; an observation clean under any reading is accepted. How a honouring stack matches names is open too (exact name; TLS also answers to tcp = ezk's documented matches_transport_param; tcp on a sips URI means TLS): membership is judged with the candidates that match under some interpretation (udp: any datagram transport; tcp: any stream factory / connection; tls: secure streams; sctp / ws: nothing), liveness and the reuse preference with those that match under every interpretation (udp: insecure datagram; tcp: TCP, and TLS for a sips URI; tls: TLS). Under no reading does a sips URI leave over a transport that does not report itself secure",
             "the URI scheme is case-insensitive (RFC 3261 19.1.1, RFC 3986 3.1): SIPS: / Sips: name a sips target; user part, password, IPv6 hex case and uri/header parameters other than transport/maddr do not influence destination or transport; the transport= value is case-insensitive (RFC 3261 19.1.4)",
@@ -2946,9 +3137,10 @@ pub fn property() -> Property {
             "a request with a pre-loaded Route header: 'the target' may be read as the Request-URI (what the pinned tree does: Route headers do not influence selection) or as the topmost Route entry (RFC 3261 8.1.2 next hop; sips if the entry or the Request-URI is sips; port = the entry's port, else the default of the effective scheme, for a sip: entry behind a sips Request-URI also 5060); an observation clean under any reading is accepted, so a sips Request-URI is never allowed over an insecure transport and a sip Request-URI behind a sips entry may go in clear to the Request-URI only; Route entries are IP literals without maddr=, a ;transport= on the topmost entry is read like one on the target URI (ignored or honoured) under the readings that take the entry as next hop; Contact / To URIs never influence the next hop",
             "send faults are transient: the failing Transport::send call puts nothing on the wire and the transport (datagram mock, external mock reporting reliable(), mock connection) stays open and usable; a request whose send failed may fail; a target info belongs to the caller: what it pinned there (or what ezk stored for its first successful request) is what later requests sent with that object must use, whatever happened to requests in between",
         ],
-        explanation: "config (29952 configurations, both tiers), uri-text (23040 quick / 115200 thorough), uri-param (16848 quick / 83200 thorough; reader and spelling rotate, everything else is a full product), followup (20736 quick / 59136 thorough), route (20864 quick / 78240 thorough) and pin-history (2352 quick / 11760 thorough) are exhaustive over their stated products; sequence is sampled (thorough-weighted)",
+        explanation: "config (29952 configurations, both tiers), bound-addr (17784 quick / 119808 thorough), uri-text (23040 quick / 115200 thorough), uri-param (16848 quick / 83200 thorough; reader and spelling rotate, everything else is a full product), followup (20736 quick / 59136 thorough), route (20864 quick / 78240 thorough) and pin-history (2352 quick / 11760 thorough) are exhaustive over their stated products; sequence is sampled (thorough-weighted)",
         subs: vec![
             enum_sub("config", config_cases, check_config),
+            enum_sub("bound-addr", bound_cases, check_config),
             enum_sub("uri-text", text_cases, check_text),
             enum_sub("uri-param", param_cases, check_param),
             enum_sub("followup", follow_cases, check_follow),
